@@ -143,7 +143,9 @@ def run(ctx):
         cov["store_level_write_faults"] = dict(runs=agg["runs"], statements=agg["statements"], flushes=agg["flushes"],
                                                flushes_failed=agg.get("flushes_failed", 0), clean_pages_evicted_after=agg.get("evicted_after_failed_flush", 0),
                                                cache_full_statements=agg.get("cachefull_statements_restarted", 0),
-                                               read_fault_rounds=agg.get("read_fault_rounds", 0))
+                                               read_fault_rounds=agg.get("read_fault_rounds", 0),
+                                               wide_updates_under_a_small_cache=agg.get("wide_updates_under_a_small_cache", 0),
+                                               wide_updates_refused_by_a_full_cache=agg.get("wide_updates_refused_by_a_full_cache", 0))
         if not agg.get("flushes_failed") and not ctx.violations:
             raise vlib.Undecided("vacuous: no flush with a failing page write was run")
         if not agg.get("read_fault_rounds") and not ctx.violations:
